@@ -55,7 +55,9 @@ pub struct Example {
 
 fn argsets(widths: &[Option<usize>], threads: &[Option<usize>], wflag: &str, tflag: &str) -> Vec<Vec<String>> {
     let mut v = vec![];
-    for w in widths { for t in threads {
+    for w in widths { for (ti, t) in threads.iter().enumerate() {
+        // quick tier (two thread counts): the second thread count runs with the default width and width 1 only
+        if threads.len() == 2 && ti == 1 && !matches!(w, None | Some(1)) { continue; }
         let mut a = vec![];
         if let Some(w) = w { a.push(wflag.to_string()); a.push(w.to_string()); }
         if let Some(t) = t { a.push(tflag.to_string()); a.push(t.to_string()); }
@@ -74,17 +76,28 @@ pub fn examples(th: bool) -> Vec<Example> {
     // ---------------------------------------------------------------- knapsack
     {
         let scopes: Vec<(usize, u64)> = if th { vec![(1, 3), (2, 3), (3, 3), (4, 2)] } else { vec![(1, 3), (2, 3), (3, 2)] };
-        let sizes: Vec<u64> = scopes.iter().map(|(n, a)| 7 * ((a + 1) * (a + 1)).pow(*n as u32)).collect();
+        let mut sizes: Vec<u64> = scopes.iter().map(|(n, a)| 7 * ((a + 1) * (a + 1)).pow(*n as u32)).collect();
+        // D15 (see DESIGN section 4): the fractional part of the example's rough bound is computed in floating point and floored:
+        // 15/22*22 = 14.999.. => 14.  It takes items of ratio exactly 1 whose weights do not divide each other: a last block holds
+        // all 3-item instances over {(7,7),(14,14),(15,15),(22,22)} with capacity 15 or 22
+        let ratio_one: Vec<(usize, usize)> = vec![(7, 7), (14, 14), (15, 15), (22, 22)];
+        sizes.push(2 * (ratio_one.len() as u64).pow(3));
         let count = sizes.iter().sum();
         let sc = scopes.clone();
-        ex.push(Example { name: "knapsack", scope: format!("(items, a) in {:?}: weights 0..a, profits 0..a (worthless and weightless items included), capacity 0..=6, all combinations", scopes), count, file_flag: None, tsptw_output: false, extra: vec![],
+        ex.push(Example { name: "knapsack", scope: format!("(items, a) in {:?}: weights 0..a, profits 0..a (worthless and weightless items included), capacity 0..=6, all combinations; plus all 3-item instances over the items {:?} with capacity 15 or 22", scopes, ratio_one), count, file_flag: None, tsptw_output: false, extra: vec![],
             arg_sets: argsets(&w4, &[None], "-w", "-t"),
             gen: Box::new(move |mut idx| {
                 let mut k = 0;
                 while idx >= sizes[k] { idx -= sizes[k]; k += 1; }
-                let (n, a) = sc[k];
-                let cap = digit(&mut idx, 7) as usize;
-                let items: Vec<(usize, usize)> = (0..n).map(|_| { let p = digit(&mut idx, a + 1) as usize; let w = digit(&mut idx, a + 1) as usize; (p, w) }).collect();
+                let (n, cap, items): (usize, usize, Vec<(usize, usize)>) = if k < sc.len() {
+                    let (n, a) = sc[k];
+                    let cap = digit(&mut idx, 7) as usize;
+                    let items: Vec<(usize, usize)> = (0..n).map(|_| { let p = digit(&mut idx, a + 1) as usize; let w = digit(&mut idx, a + 1) as usize; (p, w) }).collect();
+                    (n, cap, items)
+                } else {
+                    let cap = [15usize, 22][digit(&mut idx, 2) as usize];
+                    (3, cap, (0..3).map(|_| ratio_one[digit(&mut idx, ratio_one.len() as u64) as usize]).collect())
+                };
                 let mut best = 0;
                 for m in 0..(1u32 << n) { let w: usize = (0..n).filter(|i| m & (1 << i) != 0).map(|i| items[i].1).sum(); if w <= cap { let p: usize = (0..n).filter(|i| m & (1 << i) != 0).map(|i| items[i].0).sum(); best = best.max(p); } }
                 let text = format!("{} {}\n{}", n, cap, items.iter().map(|(p, w)| format!("{} {}\n", p, w)).collect::<String>());
@@ -371,19 +384,41 @@ pub fn examples(th: bool) -> Vec<Example> {
     }
     // ---------------------------------------------------------------- talentsched
     {
-        let scopes: Vec<(usize, usize)> = if th { vec![(2, 1), (2, 2), (3, 1), (3, 2), (4, 1), (4, 2)] } else { vec![(2, 1), (2, 2), (3, 1), (3, 2)] };
-        let sizes: Vec<u64> = scopes.iter().map(|(s, a)| (1u64 << (s * a)) * (1u64 << a) * (1u64 << s)).collect();
+        // (scenes, actors, minimum number of scenes per actor): with a minimum of 2 only the actors who can ever wait are
+        // enumerated (an actor with fewer scenes adds a constant) -- the 3 x 3 "triangles" are what it takes for a merged state to
+        // hold an actor who has left in some of the merged states only (seeded change C16xr3)
+        let c12 = vec![1i64, 2];
+        // D14 (rounding residue in the example's lower bound, see DESIGN section 4): needs contrasted costs (6 and 4 on the same scene)
+        // and an alternative order which is worse by exactly one: the thorough tier enumerates the triangles over costs {1,4,6} x
+        // durations {1,2,4}; both tiers run the two instances on which an independent random search first met it (`extra`)
+        let mut scopes: Vec<(usize, usize, usize, Vec<i64>, Vec<i64>)> = if th {
+            vec![(2, 1, 0, c12.clone(), c12.clone()), (2, 2, 0, c12.clone(), c12.clone()), (3, 1, 0, c12.clone(), c12.clone()), (3, 2, 0, c12.clone(), c12.clone()), (4, 1, 0, c12.clone(), c12.clone()), (4, 2, 0, c12.clone(), c12.clone()),
+                 (3, 3, 0, c12.clone(), c12.clone()), (4, 3, 2, c12.clone(), c12.clone()), (3, 3, 2, vec![1, 4, 6], vec![1, 2, 4])]
+        } else { vec![(2, 1, 0, c12.clone(), c12.clone()), (2, 2, 0, c12.clone(), c12.clone()), (3, 1, 0, c12.clone(), c12.clone()), (3, 2, 0, c12.clone(), c12.clone()), (3, 3, 2, c12.clone(), c12.clone())] };
+        // maintenance knob (never set by a registered command): other scopes over {1,2}, e.g. VERIF_TS_SCOPES="5,2,0;4,3,0"
+        if let Ok(sv) = std::env::var("VERIF_TS_SCOPES") { scopes = sv.split(';').filter_map(|x| { let mut it = x.split(','); Some((it.next()?.trim().parse().ok()?, it.next()?.trim().parse().ok()?, it.next().and_then(|m| m.trim().parse().ok()).unwrap_or(0), c12.clone(), c12.clone())) }).collect(); }
+        let rows_of = |ns: usize, min: usize| -> Vec<u64> { (0..(1u64 << ns)).filter(|r| r.count_ones() as usize >= min).collect() };
+        let info: Vec<(usize, usize, Vec<u64>, Vec<i64>, Vec<i64>)> = scopes.iter().map(|(s, a, m, ca, da)| (*s, *a, rows_of(*s, *m), ca.clone(), da.clone())).collect();
+        let sizes: Vec<u64> = info.iter().map(|(s, a, rows, ca, da)| (rows.len() as u64).pow(*a as u32) * (ca.len() as u64).pow(*a as u32) * (da.len() as u64).pow(*s as u32)).collect();
         let count = sizes.iter().sum();
-        let sc = scopes.clone();
-        ex.push(Example { name: "talentsched", scope: format!("(scenes, actors) in {:?}: all presence matrices, actor costs in {{1,2}}, scene durations in {{1,2}}", scopes), count, file_flag: None, tsptw_output: false, extra: vec![],
+        let ts_case = |name: &str, pres: &[Vec<u64>], costs: &[i64], durs: &[i64], expect: f64| -> Case {
+            let mut text = format!("{}\n{} {}\n", name, durs.len(), costs.len());
+            for a in 0..costs.len() { text.push_str(&format!("{} {}\n", pres[a].iter().map(|x| x.to_string()).collect::<Vec<_>>().join(" "), costs[a])); }
+            text.push_str(&format!("{}\n", durs.iter().map(|x| x.to_string()).collect::<Vec<_>>().join(" ")));
+            Case { text, expect: Expect::Value(expect), descr: format!("presence {:?} costs {:?} durations {:?}", pres, costs, durs) }
+        };
+        let d14a = ts_case("d14a", &[vec![0, 1, 1], vec![1, 1, 1], vec![1, 1, 0]], &[1, 6, 4], &[1, 2, 4], 60.0);
+        let d14b = ts_case("d14b", &[vec![1, 0, 1, 1], vec![0, 1, 1, 1], vec![1, 1, 1, 1]], &[1, 8, 7], &[2, 1, 2, 4], 127.0);
+        ex.push(Example { name: "talentsched", scope: format!("(scenes, actors, min scenes per actor, cost alphabet, duration alphabet) in {:?}: all presence matrices x costs x durations; plus 2 hand-written instances (D14)", scopes), count, file_flag: None, tsptw_output: false, extra: vec![d14a, d14b],
             arg_sets: argsets(&w4, tt, "-w", "-t"),
             gen: Box::new(move |mut idx| {
                 let mut k = 0;
                 while idx >= sizes[k] { idx -= sizes[k]; k += 1; }
-                let (ns, na) = sc[k];
-                let pres: Vec<Vec<u64>> = (0..na).map(|_| (0..ns).map(|_| digit(&mut idx, 2)).collect()).collect();
-                let costs: Vec<i64> = (0..na).map(|_| digit(&mut idx, 2) as i64 + 1).collect();
-                let durs: Vec<i64> = (0..ns).map(|_| digit(&mut idx, 2) as i64 + 1).collect();
+                let (ns, na, rows, ca, da) = &info[k];
+                let (ns, na) = (*ns, *na);
+                let pres: Vec<Vec<u64>> = (0..na).map(|_| { let r = rows[digit(&mut idx, rows.len() as u64) as usize]; (0..ns).map(|i| (r >> i) & 1).collect() }).collect();
+                let costs: Vec<i64> = (0..na).map(|_| ca[digit(&mut idx, ca.len() as u64) as usize]).collect();
+                let durs: Vec<i64> = (0..ns).map(|_| da[digit(&mut idx, da.len() as u64) as usize]).collect();
                 let mut best: Option<i64> = None;
                 for p in perms(ns) {
                     let mut tot = 0;
@@ -583,7 +618,7 @@ pub fn check(tier: &str) -> i32 {
     let _ = std::fs::create_dir_all(&scratch);
     let exs = examples(th);
     start_watchdog();
-    let total_budget = if th { 3000.0 } else { 48.0 };
+    let total_budget = if th { 2400.0 } else { 50.0 };
     let t0 = Instant::now();
     let mut per_example = vec![];
     let (mut runs, mut cases, mut complete) = (0u64, 0u64, true);
